@@ -22,4 +22,19 @@ var fixedOps = []string{
 	"rt 4 date t -1 999999999 time", "rt 4 date i int64 -1 time",
 	"rt 4 tuple 2 blob text st 2 bnil s 41 struct 2 bytes string", "rt 4 tuple 2 blob text ifs 2 bnil s 41 struct 2 ptr bytes string",
 	"rt 4 tuple 2 blob blob arr bytes 2 b 41 bnil array 2 bytes", "rt 4 tuple 1 int nil struct 1 ptr k int",
+	// the 2-byte framing of protocol <= 2 on both sides of 2^15 and 2^16 (lengths and counts are UNSIGNED shorts)
+	"rtsame 2 list blob sl bytes 3 b 68 b rep:61:32767 b 74 slice bytes", "rtsame 2 list blob sl bytes 3 b 68 b rep:61:32768 b 74 slice bytes",
+	"rtsame 1 list text sl string 2 s rep:61:65535 s 74 slice string", "rtsame 2 list text sl string 1 s rep:61:65536 slice string",
+	"rtsame 2 map text int map string k int 2 s rep:6b:40000 i int 7 s 7a i int 8 map string k int",
+	"rtsame 2 map int text map k int string 2 i int 1 s rep:76:65535 i int 2 s 74 map k int string",
+	"rtsame 2 list text slrep string 32768 s - slice string", "rtsame 2 set tinyint slrep k int8 65535 i int8 -1 slice k int8",
+	"rtsame 2 list text slrep string 65536 s - slice string", "rtsame 3 list text sl string 2 s rep:61:65536 s 74 slice string",
+	// null / EMPTY / value inside tuples and UDTs (pointer fields: nil <-> null, pointer to "" <-> empty)
+	"rtsame 4 tuple 3 text text text st 3 nilptr ptr s - ptr s 41 struct 3 ptr string ptr string ptr string",
+	"rtsame 2 tuple 2 text text arr ptr string 2 ptr s - nilptr array 2 ptr string",
+	"rtsame 4 udt 2 a text b text us 2 a ptr s - b nilptr ustruct 2 a ptr string b ptr string",
+	"rtsame 3 list tuple 1 text sl struct 1 ptr string 2 st 1 ptr s - st 1 nilptr slice struct 1 ptr string",
+	"rtsame 4 udt 2 a text b int um 2 a s - b i int 0 umap", "rtsame 4 tuple 2 text int ifs 2 s - i int 0 slice iface",
+	// KF-C02-4: a struct field of another documented type than goType(elem) (model-vs-code: crash)
+	"rt 4 tuple 1 int st 1 i int32 5 struct 1 k int32",
 }
